@@ -344,17 +344,24 @@ fn handle_one_request(
         }
     }
 
+    // set by the body reader when it is dropped without having reached the end of the body: the next request
+    // cannot be located then, and the connection is closed after this response
+    let body_lost = std::cell::Cell::new(false);
+
     if let Some(hook) = &config.pre_routing_hook {
         match (hook)(&mut request, response) {
             PreRoutingAction::Proceed => {}
             PreRoutingAction::Drop => {
                 // the request's body is still on the wire: discard it, or it is parsed as the next request
-                drop(BodyReader::from_request(
+                drop(BodyReader::from_request_reporting(
                     &buf[request.buf_offset..],
                     stream,
                     &request.headers,
+                    &body_lost,
                 ));
-                return Ok(response.keep_alive && !request.headers.is_connection_close());
+                return Ok(response.keep_alive
+                    && !request.headers.is_connection_close()
+                    && !body_lost.get());
             }
         }
     }
@@ -363,7 +370,12 @@ fn handle_one_request(
         .router
         .match_route(&request.method, request.uri.path());
 
-    let body = BodyReader::from_request(&buf[request.buf_offset..], stream, &request.headers);
+    let body = BodyReader::from_request_reporting(
+        &buf[request.buf_offset..],
+        stream,
+        &request.headers,
+        &body_lost,
+    );
     let ctx = RequestContext {
         method: request.method,
         headers: request.headers,
@@ -375,7 +387,7 @@ fn handle_one_request(
 
     let client_requested_close = ctx.headers.is_connection_close();
     (matched_route.route)(ctx, response)?;
-    if client_requested_close {
+    if client_requested_close || body_lost.get() {
         return Ok(false);
     }
     Ok(response.keep_alive)
